@@ -1,1 +1,516 @@
--- property theorems for C08 (stub)
+import RP.Lemmas.Cfr
+/-! # C08 — Regret updates are the external-sampling counterfactual regret estimator
+
+Model: `RP.Cfr` (`Model/Cfr.lean`), function by function the fixed `profile.rs`.
+Specification: `RP.Cfr.Spec` (`Spec/Cfr.lean`), the textbook estimator.
+
+All theorems are over an arbitrary field `K`, an arbitrary well-formed flat tree
+(`parent < index`, adjacency table lists only children), an arbitrary profile `σ`, and assume that
+the external reach of the leaves below the information set is non-zero (the code divides by it).
+
+* `C08_estimator` : `immediateRegret = Σ_{h∈I} ( v(h·a) − Σ_b σ(h,b)·v(h·b) )`
+* `C08_regretVector` : `regret_vector` is that value, clamped, for each action of the first node
+* `C08_value_unrolled` : `v(c) = Σ_{leaves ℓ below c} u(ℓ) · Π_{walker edges on c→ℓ} σ`
+* `C08_shift` : unchanged by `u ↦ u + c` (external-sampling shape, traverser's σ sums to 1)
+* `C08_flat` : zero when all actions are worth the same
+* `pinned_not_shift_invariant` : the pre-fix algebra violates shift invariance (2-action tree)
+
+Partial with respect to the property: exact arithmetic; `f32` rounding is only compared
+(tolerance `1e-4·Σ|terms|`) by the correspondence run. -/
+namespace RP.C08
+open RP.Cfr
+
+variable {K : Type} [Field K]
+
+/-! ## the model's reach functions are path products -/
+
+/-- factor of an edge in `relative_reach` / `profiled_reach` -/
+def reachF (t : Tree K) (σ : Nat → Nat → K) (p n : Nat) : K := reach t σ p (t.incoming n)
+/-- factor of an edge in `external_reach` -/
+def extF (t : Tree K) (σ : Nat → Nat → K) (p n : Nat) : K :=
+  if t.player p = .walker then 1 else reach t σ p (t.incoming n)
+
+theorem relativeReach_eq_pp (t : Tree K) (σ : Nat → Nat → K) (c l : Nat) :
+    relativeReach t σ c l = pp t (reachF t σ) (some c) l := by
+  unfold relativeReach pp
+  generalize l + 1 = f
+  induction f generalizing l with
+  | zero => rfl
+  | succ f ih =>
+    unfold relativeReachAux ppAux
+    by_cases h : c = l
+    · simp [h]
+    · simp only [h, if_false, Option.some.injEq]
+      cases t.parent l with
+      | none => rfl
+      | some p => simp only [ih p, reachF]
+
+theorem externalReach_eq_pp (t : Tree K) (σ : Nat → Nat → K) (n : Nat) :
+    externalReach t σ n = pp t (extF t σ) none n := by
+  unfold externalReach pp
+  generalize n + 1 = f
+  induction f generalizing n with
+  | zero => rfl
+  | succ f ih =>
+    unfold externalReachAux ppAux
+    simp only [reduceCtorEq, if_false]
+    cases t.parent n with
+    | none => rfl
+    | some p =>
+      simp only [ih p, extF]
+      split <;> simp
+
+theorem walkerProb_eq_pp (t : Tree K) (σ : Nat → Nat → K) (c l : Nat) :
+    Spec.walkerProb t σ c l = pp t (Spec.weight t σ) (some c) l := by
+  unfold Spec.walkerProb pp
+  generalize l + 1 = f
+  induction f generalizing l with
+  | zero => rfl
+  | succ f ih =>
+    unfold Spec.walkerProbAux ppAux
+    by_cases h : c = l
+    · simp [h]
+    · simp only [h, if_false, Option.some.injEq]
+      cases t.parent l with
+      | none => rfl
+      | some p => simp only [ih p]
+
+/-- `reach = (traverser's part) · (external part)` on every edge -/
+theorem reachF_factor (t : Tree K) (σ : Nat → Nat → K) :
+    reachF t σ = fun p n => Spec.weight t σ p n * extF t σ p n := by
+  funext p n
+  unfold reachF Spec.weight extF reach
+  by_cases h : t.player p = .walker
+  · simp [h]
+  · simp [h]
+
+/-- **Path lemma** (Appendix A.5): for a leaf `l` below `c`,
+    `external_reach(c) · terminal_value(c, l) = u(l) · Π_{walker edges c→l} σ`. -/
+theorem ext_mul_terminalValue {t : Tree K} (wf : t.WF) (σ : Nat → Nat → K) {c l : Nat}
+    (hcl : Anc t c l) (hne : externalReach t σ l ≠ 0) :
+    externalReach t σ c * terminalValue t σ c l = t.payoff l * Spec.walkerProb t σ c l := by
+  unfold terminalValue
+  rw [relativeReach_eq_pp, walkerProb_eq_pp, reachF_factor]
+  have hmul := pp_mul (t := t) (Spec.weight t σ) (extF t σ) (some c) (l+1) l
+  change pp t (fun p n => Spec.weight t σ p n * extF t σ p n) (some c) l = _ at hmul
+  rw [hmul]
+  change externalReach t σ c * (t.payoff l * (pp t (Spec.weight t σ) (some c) l * pp t (extF t σ) (some c) l)
+    / externalReach t σ l) = _
+  rw [externalReach_eq_pp] at hne ⊢
+  rw [externalReach_eq_pp]
+  have hsplit := pp_split wf (extF t σ) (s := none) hcl (by intro h e; cases e)
+  rw [hsplit] at hne ⊢
+  have hA : pp t (extF t σ) none c ≠ 0 := left_ne_zero_of_mul hne
+  have hE : pp t (extF t σ) (some c) l ≠ 0 := right_ne_zero_of_mul hne
+  field_simp
+
+/-! ## the unrolled value equals the recursive textbook value -/
+
+theorem walkerProb_self (t : Tree K) (σ : Nat → Nat → K) (n : Nat) : Spec.walkerProb t σ n n = 1 := by
+  rw [walkerProb_eq_pp, pp_stop]
+
+theorem walkerProb_kid {t : Tree K} (wf : t.WF) (σ : Nat → Nat → K) {n c l : Nat}
+    (hc : c ∈ t.kids n) (hl : Anc t c l) :
+    Spec.walkerProb t σ n l = Spec.weight t σ n c * Spec.walkerProb t σ c l := by
+  rw [walkerProb_eq_pp, walkerProb_eq_pp]
+  rw [pp_split wf (Spec.weight t σ) (s := some n) hl
+    (by intro h e; injection e with e; subst e; exact Anc.kid wf hc)]
+  have hne : (some n : Option Nat) ≠ some c := by
+    intro e; injection e with e; have := wf.kid_gt hc; omega
+  rw [pp_step wf _ (wf.kids_parent n c hc) hne, pp_stop, one_mul]
+
+theorem valueOver_leavesAux {t : Tree K} (wf : t.WF) (σ : Nat → Nat → K) :
+    ∀ f n, t.size ≤ f + n → Spec.valueOver t σ n (leavesAux t f n) = Spec.valueAux t σ f n := by
+  intro f
+  induction f with
+  | zero => intro n _; simp [leavesAux, Spec.valueOver, Spec.valueAux, walkerProb_self]
+  | succ f ih =>
+    intro n hn
+    unfold leavesAux Spec.valueAux
+    by_cases hk : t.kids n = []
+    · simp [hk, Spec.valueOver, walkerProb_self]
+    · simp only [hk, if_false]
+      unfold Spec.valueOver
+      rw [sum_flatMap']
+      apply sum_map_congr'
+      intro c hc
+      have hgt := wf.kid_gt hc
+      rw [← ih c (by omega)]
+      unfold Spec.valueOver
+      rw [← sum_map_mul_left']
+      apply sum_map_congr'
+      intro l hl
+      rw [walkerProb_kid wf σ hc (mem_leavesAux_anc wf f c l hl)]
+      ring
+
+/-- **Unrolled form of the specification**: the textbook value of a node is the sum over the
+    leaves below it of the payoff times the traverser's own probabilities along the path. -/
+theorem C08_value_unrolled {t : Tree K} (wf : t.WF) (σ : Nat → Nat → K) (c : Nat) :
+    Spec.value t σ c = ((leaves t c).map (fun l => t.payoff l * Spec.walkerProb t σ c l)).sum := by
+  unfold Spec.value leaves
+  rw [← valueOver_leavesAux wf σ t.size c (by omega)]
+  rfl
+
+theorem valueAux_fuel {t : Tree K} (wf : t.WF) (σ : Nat → Nat → K) (f f' n : Nat)
+    (h : t.size ≤ f + n) (h' : t.size ≤ f' + n) : Spec.valueAux t σ f n = Spec.valueAux t σ f' n := by
+  rw [← valueOver_leavesAux wf σ f n h, ← valueOver_leavesAux wf σ f' n h', leavesAux_fuel wf f f' n h h']
+
+/-- at a traverser node with children, `v(h) = Σ_b σ(h,b)·v(h·b)` -/
+theorem value_walker {t : Tree K} (wf : t.WF) (σ : Nat → Nat → K) {h : Nat}
+    (hw : t.player h = .walker) (hk : t.kids h ≠ []) : Spec.value t σ h = Spec.nodeValue t σ h := by
+  unfold Spec.value Spec.nodeValue
+  cases hs : t.size with
+  | zero => exfalso; exact hk (wf.kids_nil_of_size_le (by omega))
+  | succ s =>
+    rw [Spec.valueAux]
+    simp only [hk, if_false]
+    apply sum_map_congr'
+    intro b hb
+    have := wf.kid_gt hb
+    unfold Spec.value
+    rw [hs, valueAux_fuel wf σ s (s+1) b (by omega) (by omega)]
+    simp [Spec.weight, hw]
+
+/-! ## model = specification -/
+
+/-- `external_reach(c) · Σ_{leaves below c} terminal_value(c, ·)` is the textbook value of `c` -/
+theorem model_value {t : Tree K} (wf : t.WF) (σ : Nat → Nat → K) (c : Nat)
+    (hne : ∀ l ∈ leaves t c, externalReach t σ l ≠ 0) :
+    externalReach t σ c * ((leaves t c).map (terminalValue t σ c)).sum = Spec.value t σ c := by
+  rw [C08_value_unrolled wf, ← sum_map_mul_left']
+  apply sum_map_congr'
+  intro l hl
+  exact ext_mul_terminalValue wf σ (mem_leavesAux_anc wf _ c l hl) (hne l hl)
+
+theorem expectedValue_eq {t : Tree K} (wf : t.WF) (σ : Nat → Nat → K) (h : Nat)
+    (hne : ∀ l ∈ leaves t h, externalReach t σ l ≠ 0) :
+    expectedValue t σ h = Spec.value t σ h := model_value wf σ h hne
+
+/-- the child of a traverser node has the same external reach -/
+theorem externalReach_kid_of_walker {t : Tree K} (wf : t.WF) (σ : Nat → Nat → K) {h c : Nat}
+    (hc : c ∈ t.kids h) (hw : t.player h = .walker) : externalReach t σ c = externalReach t σ h := by
+  rw [externalReach_eq_pp, externalReach_eq_pp, pp_step wf _ (wf.kids_parent h c hc) (by simp)]
+  simp [extF, hw]
+
+theorem cfactualValue_eq {t : Tree K} (wf : t.WF) (σ : Nat → Nat → K) {h a c : Nat}
+    (hw : t.player h = .walker) (hf : follow t h a = some c)
+    (hne : ∀ l ∈ leaves t h, externalReach t σ l ≠ 0) :
+    cfactualValue t σ h a = Spec.value t σ c := by
+  have hc := (follow_mem hf).1
+  unfold cfactualValue
+  rw [hf]
+  simp only []
+  rw [← externalReach_kid_of_walker wf σ hc hw]
+  exact model_value wf σ c (fun l hl => hne l (leaves_kid_subset wf hc l hl))
+
+theorem gain_eq {t : Tree K} (wf : t.WF) (σ : Nat → Nat → K) {h a : Nat}
+    (hw : t.player h = .walker) (hf : (follow t h a).isSome)
+    (hne : ∀ l ∈ leaves t h, externalReach t σ l ≠ 0) :
+    gain t σ h a = Spec.actionValue t σ h a - Spec.nodeValue t σ h := by
+  obtain ⟨c, hc⟩ := Option.isSome_iff_exists.mp hf
+  have hk : t.kids h ≠ [] := by
+    intro e; have := (follow_mem hc).1; rw [e] at this; simp at this
+  unfold gain
+  rw [cfactualValue_eq wf σ hw hc hne, expectedValue_eq wf σ h hne, value_walker wf σ hw hk]
+  have : Spec.child t h a = some c := hc
+  simp [Spec.actionValue, this]
+
+/-- **C08 (estimator).** The regret the model of `Profile::immediate_regret` records for action `a`
+    at the information set `I = roots` equals
+    `Σ_{h∈I} ( v(h·a) − Σ_b σ(h,b)·v(h·b) )` with `v` the sampled counterfactual value. -/
+theorem C08_estimator (t : Tree K) (σ : Nat → Nat → K) (roots : List Nat) (a : Nat) (wf : t.WF)
+    (hw : ∀ h ∈ roots, t.player h = .walker)
+    (ha : ∀ h ∈ roots, (follow t h a).isSome)
+    (hne : ∀ h ∈ roots, ∀ l ∈ leaves t h, externalReach t σ l ≠ 0) :
+    immediateRegret t σ roots a = Spec.regret t σ roots a := by
+  unfold immediateRegret Spec.regret
+  apply sum_map_congr'
+  intro h hh
+  exact gain_eq wf σ (hw h hh) (ha h hh) (hne h hh)
+
+/-- **C08 (regret vector).** `Profile::regret_vector` has one entry per action of the first node of
+    the set: the textbook regret clamped to `[lo, hi]` (`REGRET_MIN`, `REGRET_MAX`). -/
+theorem C08_regretVector [Max K] [Min K] (t : Tree K) (σ : Nat → Nat → K) (lo hi : K)
+    (h0 : Nat) (rest : List Nat) (wf : t.WF)
+    (hw : ∀ h ∈ h0 :: rest, t.player h = .walker)
+    (ha : ∀ a ∈ outgoing t h0, ∀ h ∈ h0 :: rest, (follow t h a).isSome)
+    (hne : ∀ h ∈ h0 :: rest, ∀ l ∈ leaves t h, externalReach t σ l ≠ 0) :
+    regretVector t σ lo hi (h0 :: rest) =
+      (outgoing t h0).map (fun a => (a, min (max (Spec.regret t σ (h0 :: rest) a) lo) hi)) := by
+  unfold regretVector
+  apply List.map_congr_left
+  intro a haa
+  rw [C08_estimator t σ (h0 :: rest) a wf hw (ha a haa) hne]
+
+/-! ## shift invariance -/
+
+/-- external-sampling shape: a node that is not the traverser's has at most one (sampled) child -/
+def ExternalShape (t : Tree K) : Prop := ∀ n, t.player n ≠ .walker → (t.kids n).length ≤ 1
+
+/-- the traverser's probabilities sum to one at each of its nodes -/
+def WalkerNormalized (t : Tree K) (σ : Nat → Nat → K) : Prop :=
+  ∀ n, t.player n = .walker → t.kids n ≠ [] →
+    ((t.kids n).map (fun b => σ (t.bucket n) (t.incoming b))).sum = 1
+
+omit [Field K] in
+theorem externalShape_of_check {t : Tree K} (wf : t.WF) (h : t.externalShapeB = true) :
+    ExternalShape t := by
+  intro n hn
+  by_cases hs : n < t.size
+  · unfold Tree.externalShapeB at h
+    simp only [List.all_eq_true, List.mem_range, Bool.or_eq_true, beq_iff_eq, decide_eq_true_eq] at h
+    rcases h n hs with h | h
+    · exact absurd h hn
+    · exact h
+  · simp [wf.kids_nil_of_size_le (by omega : t.size ≤ n)]
+
+/-- executable form of `WalkerNormalized` -/
+def walkerNormalizedB [DecidableEq K] (t : Tree K) (σ : Nat → Nat → K) : Bool :=
+  (List.range t.size).all (fun n => t.player n != .walker || t.kids n == [] ||
+    decide (((t.kids n).map (fun b => σ (t.bucket n) (t.incoming b))).sum = 1))
+
+theorem walkerNormalized_of_check [DecidableEq K] {t : Tree K} (wf : t.WF) {σ : Nat → Nat → K}
+    (h : walkerNormalizedB t σ = true) : WalkerNormalized t σ := by
+  intro n hw hk
+  have hs : n < t.size := by
+    by_cases hs : n < t.size
+    · exact hs
+    · exact absurd (wf.kids_nil_of_size_le (by omega : t.size ≤ n)) hk
+  unfold walkerNormalizedB at h
+  simp only [List.all_eq_true, List.mem_range, Bool.or_eq_true, bne_iff_ne, ne_eq, beq_iff_eq,
+    decide_eq_true_eq] at h
+  rcases h n hs with (h | h) | h
+  · exact absurd hw h
+  · exact absurd h hk
+  · exact h
+
+/-- the tree with `c` added to every payoff -/
+def shift (c : K) (t : Tree K) : Tree K := t.mapPayoff (· + c)
+
+section accessors
+variable (c : K) (t : Tree K)
+@[simp] theorem shift_kids (i : Nat) : (shift c t).kids i = t.kids i := rfl
+@[simp] theorem shift_size : (shift c t).size = t.size := by simp [shift, Tree.mapPayoff, Tree.size]
+@[simp] theorem shift_parent (i : Nat) : (shift c t).parent i = t.parent i := by
+  simp only [shift, Tree.mapPayoff, Tree.parent, Array.getElem?_map]
+  cases t.nodes[i]? <;> rfl
+@[simp] theorem shift_incoming (i : Nat) : (shift c t).incoming i = t.incoming i := by
+  simp only [shift, Tree.mapPayoff, Tree.incoming, Array.getElem?_map]
+  cases t.nodes[i]? <;> rfl
+@[simp] theorem shift_player (i : Nat) : (shift c t).player i = t.player i := by
+  simp only [shift, Tree.mapPayoff, Tree.player, Array.getElem?_map]
+  cases t.nodes[i]? <;> rfl
+@[simp] theorem shift_bucket (i : Nat) : (shift c t).bucket i = t.bucket i := by
+  simp only [shift, Tree.mapPayoff, Tree.bucket, Array.getElem?_map]
+  cases t.nodes[i]? <;> rfl
+theorem shift_payoff {i : Nat} (hi : i < t.size) : (shift c t).payoff i = t.payoff i + c := by
+  have : i < t.nodes.size := hi
+  simp [shift, Tree.mapPayoff, Tree.payoff, this]
+
+theorem shift_wf (wf : t.WF) : (shift c t).WF :=
+  ⟨fun i p h => wf.parent_lt i p (by simpa using h), fun i j h => by simpa using wf.kids_parent i j h⟩
+
+theorem shift_follow (h a : Nat) : follow (shift c t) h a = follow t h a := by
+  simp [follow]
+
+theorem shift_leavesAux (f n : Nat) : leavesAux (shift c t) f n = leavesAux t f n := by
+  induction f generalizing n with
+  | zero => rfl
+  | succ f ih =>
+    unfold leavesAux
+    simp only [shift_kids]
+    by_cases hk : t.kids n = []
+    · simp [hk]
+    · simp only [hk, if_false]
+      exact flatMap_congr' (fun x _ => ih x)
+
+theorem shift_leaves (n : Nat) : leaves (shift c t) n = leaves t n := by
+  simp [leaves, shift_leavesAux]
+
+theorem shift_weight (σ : Nat → Nat → K) (n b : Nat) :
+    Spec.weight (shift c t) σ n b = Spec.weight t σ n b := by
+  simp [Spec.weight]
+
+theorem shift_externalReach (σ : Nat → Nat → K) (n : Nat) :
+    externalReach (shift c t) σ n = externalReach t σ n := by
+  unfold externalReach
+  generalize n + 1 = f
+  induction f generalizing n with
+  | zero => rfl
+  | succ f ih =>
+    unfold externalReachAux
+    simp only [shift_parent, shift_player, shift_incoming]
+    cases t.parent n with
+    | none => rfl
+    | some p => simp only [ih p, reach, shift_player, shift_bucket]
+end accessors
+
+/-- the textbook value moves by exactly `c` when `c` is added to every payoff -/
+theorem value_shift {t : Tree K} (wf : t.WF) (σ : Nat → Nat → K) (es : ExternalShape t)
+    (wn : WalkerNormalized t σ) (c : K) :
+    ∀ f n, n < t.size → Spec.valueAux (shift c t) σ f n = Spec.valueAux t σ f n + c := by
+  intro f
+  induction f with
+  | zero => intro n hn; simp [Spec.valueAux, shift_payoff c t hn]
+  | succ f ih =>
+    intro n hn
+    unfold Spec.valueAux
+    simp only [shift_kids]
+    by_cases hk : t.kids n = []
+    · simp [hk, shift_payoff c t hn]
+    · simp only [hk, if_false]
+      have h1 : ((t.kids n).map (fun b => Spec.weight (shift c t) σ n b * Spec.valueAux (shift c t) σ f b)).sum
+          = ((t.kids n).map (fun b => Spec.weight t σ n b * (Spec.valueAux t σ f b + c))).sum := by
+        apply sum_map_congr'
+        intro b hb
+        rw [shift_weight, ih b (wf.kid_lt_size hb)]
+      rw [h1, sum_map_mul_add']
+      have h2 : ((t.kids n).map (fun b => Spec.weight t σ n b)).sum = 1 := by
+        by_cases hw : t.player n = .walker
+        · have := wn n hw hk
+          simpa [Spec.weight, hw] using this
+        · have hlen := es n hw
+          match hkk : t.kids n, hk, hlen with
+          | [b], _, _ => simp [Spec.weight, hw]
+          | [], h, _ => exact absurd rfl h
+          | _ :: _ :: _, _, h => simp at h
+      rw [h2, mul_one]
+
+theorem regret_shift {t : Tree K} (wf : t.WF) (σ : Nat → Nat → K) (es : ExternalShape t)
+    (wn : WalkerNormalized t σ) (c : K) (roots : List Nat) (a : Nat)
+    (hw : ∀ h ∈ roots, t.player h = .walker) (ha : ∀ h ∈ roots, (follow t h a).isSome) :
+    Spec.regret (shift c t) σ roots a = Spec.regret t σ roots a := by
+  unfold Spec.regret
+  apply sum_map_congr'
+  intro h hh
+  obtain ⟨k, hk⟩ := Option.isSome_iff_exists.mp (ha h hh)
+  have hkm := (follow_mem hk).1
+  have hne : t.kids h ≠ [] := by intro e; rw [e] at hkm; simp at hkm
+  have e1 : Spec.child (shift c t) h a = some k := by
+    have : Spec.child (shift c t) h a = follow (shift c t) h a := rfl
+    rw [this, shift_follow, hk]
+  have e2 : Spec.child t h a = some k := hk
+  have hv : ∀ b ∈ t.kids h, Spec.value (shift c t) σ b = Spec.value t σ b + c := by
+    intro b hb
+    unfold Spec.value
+    rw [shift_size]
+    exact value_shift wf σ es wn c t.size b (wf.kid_lt_size hb)
+  unfold Spec.actionValue Spec.nodeValue
+  rw [e1, e2]
+  simp only [shift_kids, shift_bucket, shift_incoming]
+  rw [hv k hkm]
+  have h1 : ((t.kids h).map (fun b => σ (t.bucket h) (t.incoming b) * Spec.value (shift c t) σ b)).sum
+      = ((t.kids h).map (fun b => σ (t.bucket h) (t.incoming b) * (Spec.value t σ b + c))).sum := by
+    apply sum_map_congr'
+    intro b hb
+    rw [hv b hb]
+  rw [h1, sum_map_mul_add', wn h (hw h hh) hne]
+  ring
+
+/-- **C08 (shift invariance).** In a tree of external-sampling shape, with the traverser's
+    probabilities summing to one at each of its nodes, the recorded regret is unchanged when a
+    constant is added to all payoffs. -/
+theorem C08_shift (t : Tree K) (σ : Nat → Nat → K) (roots : List Nat) (a : Nat) (c : K) (wf : t.WF)
+    (es : ExternalShape t) (wn : WalkerNormalized t σ)
+    (hw : ∀ h ∈ roots, t.player h = .walker)
+    (ha : ∀ h ∈ roots, (follow t h a).isSome)
+    (hne : ∀ h ∈ roots, ∀ l ∈ leaves t h, externalReach t σ l ≠ 0) :
+    immediateRegret (shift c t) σ roots a = immediateRegret t σ roots a := by
+  rw [C08_estimator t σ roots a wf hw ha hne,
+    C08_estimator (shift c t) σ roots a (shift_wf c t wf) (by simpa using hw)
+      (by simpa [shift_follow] using ha)
+      (by simpa [shift_leaves, shift_externalReach] using hne)]
+  exact regret_shift wf σ es wn c roots a hw ha
+
+/-- **C08 (all actions worth the same).** If at every node of the set all actions have the same
+    value and the traverser's probabilities there sum to one, the recorded regret of every action
+    is zero. -/
+theorem C08_flat (t : Tree K) (σ : Nat → Nat → K) (roots : List Nat) (a : Nat) (wf : t.WF)
+    (hw : ∀ h ∈ roots, t.player h = .walker)
+    (ha : ∀ h ∈ roots, (follow t h a).isSome)
+    (hne : ∀ h ∈ roots, ∀ l ∈ leaves t h, externalReach t σ l ≠ 0)
+    (hsum : ∀ h ∈ roots, ((t.kids h).map (fun b => σ (t.bucket h) (t.incoming b))).sum = 1)
+    (hflat : ∀ h ∈ roots, ∃ k : K, ∀ b ∈ t.kids h, Spec.value t σ b = k) :
+    immediateRegret t σ roots a = 0 := by
+  rw [C08_estimator t σ roots a wf hw ha hne]
+  unfold Spec.regret
+  have : ∀ h ∈ roots, Spec.actionValue t σ h a - Spec.nodeValue t σ h = 0 := by
+    intro h hh
+    obtain ⟨c, hc⟩ := Option.isSome_iff_exists.mp (ha h hh)
+    obtain ⟨k, hk⟩ := hflat h hh
+    have e2 : Spec.child t h a = some c := hc
+    unfold Spec.actionValue Spec.nodeValue
+    rw [e2]
+    simp only []
+    rw [hk c (follow_mem hc).1]
+    have h1 : ((t.kids h).map (fun b => σ (t.bucket h) (t.incoming b) * Spec.value t σ b)).sum
+        = ((t.kids h).map (fun b => k * σ (t.bucket h) (t.incoming b))).sum := by
+      apply sum_map_congr'
+      intro b hb
+      rw [hk b hb, mul_comm]
+    rw [h1, sum_map_mul_left', hsum h hh]
+    ring
+  rw [sum_map_congr' this]
+  simp
+
+/-! ## non-vacuity: a concrete tree (traverser – opponent – traverser – chance – leaf) -/
+
+/-- ```
+    0 walker b0 ─2→ 1 leaf (−1)
+                ─4→ 2 opponent b1 ─6→ 3 walker b2 ─2→ 4 leaf (−3)
+                                                   ─4→ 5 chance ─1→ 6 leaf (7)
+    ``` -/
+def ex : Tree ℚ := Tree.ofNodes #[
+  ⟨none, 0, .walker, 0, 0⟩, ⟨some 0, 2, .terminal, 9, -1⟩, ⟨some 0, 4, .opponent, 1, 0⟩,
+  ⟨some 2, 6, .walker, 2, 0⟩, ⟨some 3, 2, .terminal, 9, -3⟩, ⟨some 3, 4, .chance, 3, 0⟩,
+  ⟨some 5, 1, .terminal, 9, 7⟩]
+
+def σx : Nat → Nat → ℚ
+  | 0, 2 => 1/4 | 0, 4 => 3/4 | 1, 6 => 1/3 | 2, 2 => 2/5 | 2, 4 => 3/5 | _, _ => 0
+
+theorem ex_wf : ex.WF := Tree.wfb_sound _ (by decide +kernel)
+theorem ex_shape : ExternalShape ex := externalShape_of_check ex_wf (by decide +kernel)
+theorem ex_norm : WalkerNormalized ex σx := walkerNormalized_of_check ex_wf (by decide +kernel)
+
+example : leaves ex 0 = [6, 4, 1] := by decide +kernel
+example : externalReach ex σx 6 = 1/3 := by decide +kernel
+-- regrets at the root, at the inner traverser node, and of the (artificial) two-node set
+example : immediateRegret ex σx [0] 2 = -3 ∧ immediateRegret ex σx [0] 4 = 1 := by decide +kernel
+example : immediateRegret ex σx [3] 2 = -6 ∧ immediateRegret ex σx [3] 4 = 4 := by decide +kernel
+example : immediateRegret ex σx [0, 3] 4 = 5 := by decide +kernel
+example : Spec.regret ex σx [0, 3] 4 = 5 := by decide +kernel
+example : regretVector ex σx (-300000) 2 [0, 3] = [(4, 2), (2, -9)] := by decide +kernel
+-- the hypotheses of the theorems are satisfiable, and the theorems apply
+example : immediateRegret ex σx [0, 3] 4 = Spec.regret ex σx [0, 3] 4 :=
+  C08_estimator ex σx [0, 3] 4 ex_wf (by decide +kernel) (by decide +kernel) (by decide +kernel)
+example : immediateRegret (shift 10 ex) σx [0, 3] 4 = immediateRegret ex σx [0, 3] 4 :=
+  C08_shift ex σx [0, 3] 4 10 ex_wf ex_shape ex_norm (by decide +kernel) (by decide +kernel)
+    (by decide +kernel)
+example : immediateRegret (shift 10 ex) σx [0, 3] 4 = 5 := by decide +kernel
+
+/-- all actions worth the same (both leaves pay 2): zero regret -/
+def exFlat : Tree ℚ := Tree.ofNodes #[
+  ⟨none, 0, .walker, 0, 0⟩, ⟨some 0, 2, .terminal, 9, 2⟩, ⟨some 0, 4, .terminal, 9, 2⟩]
+example : immediateRegret exFlat σx [0] 2 = 0 :=
+  C08_flat exFlat σx [0] 2 (Tree.wfb_sound _ (by decide +kernel)) (by decide +kernel)
+    (by decide +kernel) (by decide +kernel) (by decide +kernel)
+    (by intro h hh; exact ⟨2, by simp at hh; subst hh; decide +kernel⟩)
+
+/-! ## the algebra pinned before commit d6f8047 is not the estimator
+
+`Pinned.immediateRegret = Σ_h ( σ(h,a)·v(h·a) − π_walker(h)·Σ_b σ(h,b)·v(h·b) )`.  On the two-action
+tree below (payoffs 1 and 0, σ = ¼, ¾) it changes when 1 is added to both payoffs, and it is
+non-zero when both actions are worth the same; the fixed model gives the textbook values. -/
+def ex2 : Tree ℚ := Tree.ofNodes #[
+  ⟨none, 0, .walker, 0, 0⟩, ⟨some 0, 2, .terminal, 9, 1⟩, ⟨some 0, 4, .terminal, 9, 0⟩]
+
+theorem pinned_not_shift_invariant :
+    Pinned.immediateRegret ex2 σx [0] 2 = 0 ∧ Pinned.immediateRegret (shift 1 ex2) σx [0] 2 = -3/4 ∧
+    immediateRegret ex2 σx [0] 2 = 3/4 ∧ immediateRegret (shift 1 ex2) σx [0] 2 = 3/4 := by
+  decide +kernel
+
+theorem pinned_not_flat :
+    Pinned.immediateRegret exFlat σx [0] 2 = -3/2 ∧ immediateRegret exFlat σx [0] 2 = 0 := by
+  decide +kernel
+
+end RP.C08
